@@ -1,4 +1,5 @@
 import TcVerif.Model.Replica
+import TcVerif.Proofs.SrcStatus
 /-!
 # C15 — The working set lists exactly the pending tasks, with stable numbering
 
@@ -288,5 +289,12 @@ theorem C15_no_duplicates (db : DB) (r : Bool) (old : List (Option Nat)) (all : 
   have h3 := (List.mem_filter.mp hb).2
   simp only [Bool.and_eq_true, Bool.not_eq_true', List.contains_eq_mem, decide_eq_false_iff_not] at h3
   exact h3.2 h1
+
+/-- "pending or recurring" — the membership test of the working set — in the model is a comparison of the
+    stored string with `pending` / `recurring`; that is what the source's `Status::from_taskmap`
+    (translated from `src/task/status.rs` on every run) makes of it -/
+theorem C15_source_status (s : String) :
+    (Src.statusFromTaskmap s = .pending ↔ s = "pending") ∧ (Src.statusFromTaskmap s = .recurring ↔ s = "recurring") :=
+  ⟨(src_status_iff s).1, (src_status_iff s).2.1⟩
 
 end Tc
